@@ -230,3 +230,10 @@ def affine_arange(e):
     if sv not in (1, -1):
         return None
     return rest + a * T.const(c1), T.const(c1) * s, (b - a) * s
+
+
+def argp(env, i):
+    """i-th bound parameter of a recorded call (declaration order, receiver included for methods).  Private helpers are
+    looked up by position: their parameter names are not part of any interface and may be renamed freely."""
+    vals = list(env.values())
+    return vals[i] if -len(vals) <= i < len(vals) else None
